@@ -32,11 +32,35 @@ def mods():
 _comp_cache = {}
 
 
+def _tl(n):
+    return bytes([n]) if n <= 0xFC else b'\xfd' + n.to_bytes(2, 'big') if n <= 0xFFFF else b'\xfe' + n.to_bytes(4, 'big')
+
+
+_TYPED_NUM = {'seg': 50, 'off': 52, 'v': 54, 't': 56, 'seq': 58}
+
+
 def comp(s):
-    """component bytes of the text form used in schemas and names ('a', 'v=0', ...)"""
+    """component bytes of the text form used in schemas and names ('a', 'v=0', 'sha256digest=<hex>', ...), read by hand
+    from the NDN URI scheme (NOT with Component.from_str: the generators and the Spec never call the library)"""
     if s not in _comp_cache:
-        from ndn.encoding import Component
-        _comp_cache[s] = bytes(Component.from_str(s))
+        head, eq, rest = s.partition('=')
+        if eq and head in ('sha256digest', 'params-sha256'):
+            t, v = (1 if head == 'sha256digest' else 2), bytes.fromhex(rest)
+        elif eq and head in _TYPED_NUM and rest.isdigit():
+            n = int(rest)       # a NonNegativeInteger in the shortest of 1 / 2 / 4 / 8 bytes
+            t, v = _TYPED_NUM[head], n.to_bytes(1 if n < 2 ** 8 else 2 if n < 2 ** 16 else 4 if n < 2 ** 32 else 8, 'big')
+        else:
+            t, txt = (int(head), rest) if (eq and head.isdigit()) else (8, s)
+            v, i = bytearray(), 0
+            while i < len(txt):
+                if txt[i] == '%':
+                    v.append(int(txt[i + 1:i + 3], 16))
+                    i += 3
+                else:
+                    v += txt[i].encode()
+                    i += 1
+            v = bytes(v)
+        _comp_cache[s] = _tl(t) + _tl(len(v)) + v
     return _comp_cache[s]
 
 
@@ -52,6 +76,28 @@ def user_fns(defined):
     # using it are judged by the oracle only
     fns['$first'] = lambda c, args: len(args) > 0 and args[0] is not None and bytes(args[0]) == bytes(c)
     return {k: v for k, v in fns.items() if k in defined}
+
+
+def _ctype(c):
+    """Type number of an encoded component, read by hand"""
+    c = bytes(c)
+    return c[0] if c[0] <= 0xFC else int.from_bytes(c[1:1 + {0xFD: 2, 0xFE: 4, 0xFF: 8}[c[0]]], 'big')
+
+
+# the user functions as docs/src/lvs/lvs.rst describes them ($eq: equal to every argument; $eq_type: of the same
+# component type as every argument) and the two of this harness - independent of ndn.app_support.light_versec
+SPEC_FNS = {
+    '$eq': lambda c, args: all(a is not None and bytes(a) == bytes(c) for a in args),
+    # (an argument that is an unbound pattern arrives as None: the result is undefined - TypeError, not compared)
+    '$eq_type': lambda c, args: all(_ctype(a) == _ctype(c) for a in args),
+    '$odd': lambda c, args: (bytes(c)[-1] + sum((bytes(a)[-1] if a is not None else 1) for a in args)) % 2 == 1,
+    '$first': lambda c, args: len(args) > 0 and args[0] is not None and bytes(args[0]) == bytes(c),
+}
+
+
+def spec_fns(defined):
+    """what a generator / oracle hands to Spec (no library object in it; see user_fns for the real Checker's dictionary)"""
+    return {k: v for k, v in SPEC_FNS.items() if k in defined}
 
 
 def asym_variant(rng, schema):
@@ -114,7 +160,9 @@ class Spec:
 
     def __init__(self, schema, fns):
         self.rules = schema['rules']
-        self.fns = fns
+        # the Spec's reading of the documented user functions is its own (SPEC_FNS), whatever dictionary the caller
+        # also hands to the real Checker: the oracle must not compute `$eq` / `$eq_type` with the library's functions
+        self.fns = {k: SPEC_FNS.get(k, v) for k, v in fns.items()}
         self.defs = {}
         for i, r in enumerate(self.rules):
             self.defs.setdefault(r['id'], []).append(i)
